@@ -48,3 +48,15 @@ DOCS = [
      "many": [{"x": 4}, {"x": 5, "kid": {"code": 6, "tag": "u"}}], "ch": [{"leaf": {"code": 7}, "b": 8}, {"leaf": {"code": 9}, "a": "y"}]},
     {"item": {"leaf": {"code": 2}, "b": 3}, "base": {"x": 1}},
 ]
+
+
+@dataclass
+class WildOther:
+    """A ##other wildcard next to a typed element: the memo of XmlVar.match_namespace hangs off metadata that the
+    shared context caches (C19)."""
+
+    class Meta:
+        namespace = "urn:wild"
+
+    head: Optional[str] = field(default=None, metadata={"type": "Element"})
+    ext: List[object] = field(default_factory=list, metadata={"type": "Wildcard", "namespace": "##other"})
